@@ -633,13 +633,13 @@ func handleAddition(left, right interface{}, operator token.Token) interface{} {
 			utils.RuntimeError(operator, "Left operand must be a number.")
 			return nil
 		}
-		rightNum, err := toNumber(right)
-		if err == nil {
-			return leftNum + rightNum
-		}
 		rightStr, ok := right.(string)
 		if ok {
 			return fmt.Sprintf("%v", leftNum) + rightStr
+		}
+		rightNum, err := toNumber(right)
+		if err == nil {
+			return leftNum + rightNum
 		}
 		if rightStr, ok := right.([]rune); ok {
 			return fmt.Sprintf("%v", leftNum) + string(rightStr)
